@@ -196,13 +196,23 @@ def validate(func, *args, **kwds):
     # keyword-only arguments, and about partials of methods, of callable
     # instances, and of arguments with defaults)
     _func, _args, _kwds = func, args, kwds
-    while not inspect.ismethod(_func) and not inspect.isfunction(_func):
+    while not inspect.isfunction(_func):
+        if inspect.ismethod(_func): # a bound method first applies its instance
+            _args = (_func.__self__,) + tuple(_args)
+            _func = _func.__func__
+            continue
         try: # if it's a partial, it first applies its own arguments
             _args = tuple(_func.args) + tuple(_args)
             _kwds = dict(_func.keywords or {}, **_kwds)
             _func = _func.func
+            continue
         except AttributeError:
+            pass
+        _call = getattr(type(_func), '__call__', None)
+        if not inspect.isfunction(_call):
             break
+        _args = (_func,) + tuple(_args) # a callable instance applies itself
+        _func = _call
     try:
         inspect.signature(_func).bind(*_args, **_kwds)
         return None
